@@ -5,7 +5,7 @@ import re
 from .. import common, gen, trees, parsing
 
 LEVEL = "proof"
-EXTRA_LEAN_MODULES = ["Luqum.Props.GenPrint"]   # __str__ translated from the source (tools/pysym.py)
+EXTRA_LEAN_MODULES = ["Luqum.Props.GenPrint", "Luqum.Props.GenGlue"]   # __str__ translated from the source (tools/pysym.py)
 RULE = ("(a) parsed queries with their layout stripped, (b) programmatic trees over all classes with adversarial "
         "term values (=b, T12, 30, TO, digits after implicit ~ / ^), without layout and (c) with partial layout. "
         "'Expressible' is decided by printing the tree with a blank between all tokens and parsing that. "
@@ -103,6 +103,12 @@ def _walk(x):
 
 def run(ctx):
     I = common.impl()
+    # a per-call option added to the module-level singleton must not outlive the call (nothing to probe on the pinned tree)
+    good = [gen.mk("AndOperation", [gen.W("a"), gen.mk("OrOperation", [gen.W("b"), gen.W("c")])]),
+            gen.mk("Range", [gen.W("1"), gen.W("2")], il=True, ih=True)]
+    bad = [gen.mk("AndOperation", [gen.W("a"), gen.mk("OrOperation", [])])]
+    trees.probe_new_parameters(ctx, "auto_head_tail", I.aht.auto_head_tail, lambda: type(I.aht.auto_head_tail)(),
+                               {"tree"}, good, bad, common.dump_tree)
     rng = ctx.rng
     cases = []
     n = ctx.budget(500, 10000)
